@@ -1055,7 +1055,9 @@ impl Entity {
                     }
                 }
             }
-            self.insert_field(field.0, field.1);
+            //a new field keeps the short name given by its position in the new definition:
+            //assigning it here would depend on the iteration order of the HashMap
+            self.fields.insert(field.0, field.1);
         }
 
         let mut index_map = HashMap::new();
